@@ -155,6 +155,9 @@ def run(ctx):
     fs2 = facts.load("core", "rel")
     c08.get_rule(rn, fs2["pest_typed"], fs2["pest_typed.rel"])
     rn.require(8, "instances")
+    # which skip the generated full-parse wrappers run: the grammar's own WHITESPACE / COMMENT, for the rule kinds that skip at all
+    from . import c07_types
+    c07_types.run(ctx, ids=("R04-SKIPCONST", "R04-SKIPTY", "R04-SKIPKIND"))
     ctx.assume("what the skip rules match on a given input (e.g. an unterminated comment) is the skip node's own behaviour")
     ctx.assume("which kind the generator passes to rule! for each grammar rule kind is decided under C07/C20 (generator templates)")
     ctx.explanation = ("Path invariants of the full-parse wrappers on their effect decision trees, for every expansion of the rule macros in "
